@@ -395,6 +395,35 @@ func c06Run(c *Ctx) {
 	if rc.S >= 2 && rc.exp.Kind == MustEqual {
 		c06Split(c, rc, o)
 	}
+	// (4) a refused call must leave the caller's tensors usable: the same tensor objects are
+	// first passed to a call that is refused inside Apply (an activation name the library
+	// does not know), then to the valid request, which must still give the same result
+	if rc.exp.Kind == MustEqual && c.Idx%4 == 1 {
+		bad := rc.req
+		bad.Attrs = nil
+		for _, a := range rc.req.Attrs {
+			if a.Name != "activations" {
+				bad.Attrs = append(bad.Attrs, a)
+			}
+		}
+		acts := make([]string, map[string]int{"RNN": 1, "GRU": 2, "LSTM": 3}[op])
+		for i := range acts {
+			acts[i] = "tanh"
+		}
+		acts[c.R.Intn(len(acts))] = c.R.PickStr("Softsign", "NoSuchActivation")
+		bad.Attrs = append(bad.Attrs, mon.AttrStrings("activations", acts))
+		sr := mon.NewSharedRunner()
+		refused := sr.Run(bad)
+		again := sr.Run(rc.req)
+		c.Eval(2)
+		c.Count("valid-call-after-a-refused-call", 1)
+		if refused.Kind == mon.Panic {
+			c.Violation(op+":panic", "unknown activation name: %s", refused.Describe())
+		}
+		if d := diffOutcomes(o, again); d != "" && refused.Kind != mon.Value {
+			c.Violation(op+":valid-call-fails-after-a-refused-call", "the same tensor objects were first passed to a call the operator refused (%s), then to the valid request: %s | %s", trunc(refused.Describe(), 150), d, trunc(rc.req.Describe(), 300))
+		}
+	}
 	if c.Idx%1200 == 29 {
 		c.Sample(map[string]any{"request": trunc(rc.req.Describe(), 500), "expectation": rc.exp.Kind.String(), "Y_expected": trunc(rc.exp.Want[0].T.String(), 200), "gate_swap_discriminates": rc.discrim})
 	}
